@@ -23,6 +23,8 @@ import Lattigo.Model.MPSwitch
     ckks_scale <defaultScale> <inputScale> <mask:iv>                      → iv
     ckks_minlevel <lambda> <scale:nat> <nParties> <moduli:v>              → <minLevel> <logBound> <ok>
         GetMinimumLevelForRefresh in exact integer arithmetic
+    ckks_nowrap <lambda> <scale:nat> <nParties> <moduli:v> <msgBits>      → <minLevel> <logBound> <ok> <nowrap>
+        nowrap = [2·(nParties·2^(logBound−1) + 2^msgBits) < Q_minLevel]
     ckks_fin <qsIn:v> <qsOut:v> <n> <gap> <cnt> <aggE2S:M> <c0:M> <aggS2E:M> <a:M> <defaultScale> <inputScale>  → iv|M|M
 -/
 namespace Driver.C16
@@ -175,6 +177,10 @@ def handleOpt (toks : List String) : Option String :=
       match minLevelForRefresh (← lambda.toNat?) (← scale.toNat?) (← nParties.toNat?) (← parseVec? moduli) with
       | some (l, lb) => some (toString l ++ " " ++ toString lb ++ " 1")
       | none => some "0 0 0"
+  | ["ckks_nowrap", lambda, scale, nParties, moduli, msgBits] => do
+      match noWrapAtMinLevel (← lambda.toNat?) (← scale.toNat?) (← nParties.toNat?) (← parseVec? moduli) (← msgBits.toNat?) with
+      | some (l, lb, b) => some (toString l ++ " " ++ toString lb ++ " 1 " ++ (if b then "1" else "0"))
+      | none => some "0 0 0 0"
   | _ => none
 
 def handle (toks : List String) : String := (handleOpt toks).getD badOp
